@@ -64,9 +64,22 @@ def check_one(run, model, am, opts, nrel, rng, groups=None):
     """Run every requested observation on one abstract molecule. Returns dict of facts."""
     n = am.n()
     g = build(am)
-    before = snapshot(g)
-    c = impl.canonicalize_molecule(g)
     facts = {}
+    if rng.random() < 0.4:
+        # the same data as a graph whose labels are sparse / unrelated to the listing order (what
+        # nx.relabel_nodes, a subgraph copy or a second canonicalization hand to the library)
+        g = scramble(g, rng)
+        facts["scrambled_base"] = True
+        run.count("base:scrambled")
+    before = snapshot(g)
+    lab_of = {d[TRACER]: a for a, d in g.nodes(data=True)}     # tracer (position in am) -> label in g
+    tr_of = {a: d[TRACER] for a, d in g.nodes(data=True)}
+    c = impl.canonicalize_molecule(g)
+    if any(TRACER not in d for _, d in c.nodes(data=True)) or c.number_of_nodes() != n:
+        run.falsifier_hits.append({"property": "C12", "what": "canonical graph has other atoms than the input (atoms lost, added or without attributes)",
+                                   "molecule": am_json(am), "extra": {"labels_in": sorted(g.nodes), "labels_out": sorted(c.nodes)}})
+        run.evaluations += 1
+        return facts
     P = classes_by_orig(c)
     lam = {d[TRACER]: a for a, d in c.nodes(data=True)}
     run.evaluations += 1
@@ -83,7 +96,7 @@ def check_one(run, model, am, opts, nrel, rng, groups=None):
     if "K4" in opts:
         run.comp("K4")["cases"] += 1
         ans = model.q("classes " + enc_mol(atoms_m, bonds_m))
-        exp = "ok " + " ".join(str(P[a]) for a, *_ in atoms_m)
+        exp = "ok " + " ".join(str(P[tr_of[a]]) for a, *_ in atoms_m)
         if ans != exp:
             diff("K4", "partition classes differ", {"model": ans, "impl": exp})
         facts["rounds"] = model.q("rounds " + enc_mol(atoms_m, bonds_m))
@@ -97,22 +110,23 @@ def check_one(run, model, am, opts, nrel, rng, groups=None):
             hit(tgt, "canonicalize_molecule changed its argument")
         for a, d in c.nodes(data=True):
             o = d[TRACER]
-            exp = dict(before[1][o]); got = dict(d)
+            exp = dict(before[1][lab_of[o]]); got = dict(d)
             got.pop("partition", None); exp.pop("partition", None)
             if got != exp:
                 hit(tgt, "attributes of an atom changed under canonicalization", {"orig": o, "got": str(got), "exp": str(exp)})
-        eb = sorted((tuple(sorted((lam[u], lam[v]))), d.get("bond_type")) for u, v, d in before[2])
+        eb = sorted((tuple(sorted((lam[tr_of[u]], lam[tr_of[v]]))), d.get("bond_type")) for u, v, d in before[2])
         ec = sorted((tuple(sorted((u, v))), d.get("bond_type")) for u, v, d in c.edges(data=True))
         if eb != ec:
             hit(tgt, "bonds / bond data changed under canonicalization", {"exp": eb, "got": ec})
-        if [d[TRACER] for _, d in c.nodes(data=True)] != before[0]:
+        if [lab_of[d[TRACER]] for _, d in c.nodes(data=True)] != before[0]:
             run.notes.append("node order of canonical graph differs from input order (allowed)")
         c2 = impl.canonicalize_molecule(g)
         if snapshot(c2)[:3] != snapshot(c)[:3]:
             hit(tgt, "second canonicalize call on the same object gives another result")
     if "K5" in opts:
         run.comp("K5")["cases"] += 1
-        ans = model.q("canon " + enc_pairs(sorted(lam.items())) + " " + enc_mol(atoms_m, bonds_m))
+        lam_lbl = sorted((lab_of[t_], cl) for t_, cl in lam.items())
+        ans = model.q("canon " + enc_pairs(lam_lbl) + " " + enc_mol(atoms_m, bonds_m))
         ca, cb = impl.to_model(c)
         if ans.startswith("ok "):
             ma, mb, _ = dec_mol(ans.split()[1:])
@@ -143,7 +157,7 @@ def check_one(run, model, am, opts, nrel, rng, groups=None):
             if ans != "ok " + hx(s):
                 diff("K7", "serialization differs on the implementation's canonical graph",
                      {"model": unhx(ans[3:]) if ans.startswith("ok ") else ans, "impl": s})
-            ans2 = model.q("tucan " + enc_pairs(sorted(lam.items())) + " " + enc_mol(atoms_m, bonds_m))
+            ans2 = model.q("tucan " + enc_pairs(sorted((lab_of[t_], cl) for t_, cl in lam.items())) + " " + enc_mol(atoms_m, bonds_m))
             if ans2 != "ok " + hx(s):
                 diff("K7", "model pipeline (classes, relabel by the implementation's labelling, serialize) differs",
                      {"model": unhx(ans2[3:]) if ans2.startswith("ok ") else ans2, "impl": s})
